@@ -264,84 +264,121 @@ func runC07(r *Report) {
 				}
 			}
 		}
+		// the comparison may live in an unexported helper that is handed the value and the client expiry
+		var helper *ssa.Call
+		cfn, isC := fn, func(v ssa.Value) bool { return c != nil && (v == c || Same(v, c)) }
+		if s == nil && c != nil {
+			for _, cs := range Sites(fn, func(in ssa.Instruction) bool { _, ok := in.(*ssa.Call); return ok }) {
+				call := cs.Instr.(*ssa.Call)
+				h := call.Call.StaticCallee()
+				if h == nil || h.Blocks == nil || h.Pkg != fn.Pkg || isExportedName(h.Name()) || h.Signature.Recv() != nil {
+					continue
+				}
+				ci := -1
+				for k, a := range call.Call.Args {
+					if isC(a) {
+						ci = k
+					}
+				}
+				if ci < 0 || ci >= len(h.Params) {
+					continue
+				}
+				for _, gs := range CallSites(h, "rueidis.(*RedisMessage).getExpireAt") {
+					if _, isp := gs.Call().Common().Args[0].(*ssa.Parameter); isp {
+						s = gs.Instr.(ssa.Value)
+					}
+				}
+				if s != nil {
+					helper, cfn = call, h
+					cp := h.Params[ci]
+					isC = func(v ssa.Value) bool { return v == ssa.Value(cp) }
+				}
+			}
+		}
 		if !r.Anchor("R07c", name+": server and client expiry values", s != nil && c != nil) {
 			continue
 		}
-		sets := CallSites(fn, "rueidis.(*RedisMessage).setExpireAt")
-		r.Anchor("R07c", name+": expiry override", len(sets) == 1)
-		if len(sets) != 1 {
-			continue
-		}
-		set := sets[0]
-		isC := func(v ssa.Value) bool { return v == c || Same(v, c) }
-		argOK := isC(set.Call().Common().Args[1])
-		if ph, ok := set.Call().Common().Args[1].(*ssa.Phi); ok {
-			argOK = false
-			for _, e := range ph.Edges {
-				if isC(e) {
-					argOK = true
-				}
+		{
+			fn := cfn
+			sets := CallSites(fn, "rueidis.(*RedisMessage).setExpireAt")
+			r.Anchor("R07c", name+": expiry override", len(sets) == 1)
+			if len(sets) != 1 {
+				continue
 			}
-		}
-		condOK := AllDisjuncts(GuardDNF(set.Block, 3), func(g Guard) bool {
-			x, op, y, ok := CmpGuard(g)
-			if !ok {
-				return false
-			}
-			if (op == token.LSS && isC(x) && y == s) || (op == token.GTR && x == s && isC(y)) {
-				return true
-			}
-			k, isc := ConstInt(y)
-			return op == token.EQL && x == s && isc && k == 0
-		})
-		r.ObSite("R07c", set, "client-expiry-wins-iff-server-zero-or-later", argOK && condOK, "the value's expiry is overwritten with the client's expiry exactly under (client < server) or (server == 0)")
-		// the complementary arm: reaching the commit without the override requires server != 0 and client >= server
-		var commit *Site
-		for _, b := range fn.Blocks {
-			for i, in := range b.Instrs {
-				if st, ok := in.(*ssa.Store); ok && IsFieldAddr(st.Addr, "rueidis.cacheEntry", "val") {
-					s2 := Site{fn, b, i, in}
-					commit = &s2
-				}
-				if cl, ok := in.(*ssa.Call); ok && CalleeName(cl) == "iface:rueidis.SimpleCache.Set" {
-					s2 := Site{fn, b, i, in}
-					commit = &s2
-				}
-			}
-		}
-		if r.Anchor("R07c", name+": commit of the value", commit != nil) {
-			okSkip := true
-			start := SiteOf(s.(ssa.Instruction))
-			PathEnum(start, func(x Site) bool { return x.Instr == commit.Instr }, nil, 5000, func(conds []Guard, at Site) {
-				passedSet := false
-				// did the path go through the override block?
-				for _, g := range conds {
-					_ = g
-				}
-				hasLess, hasZero, notLess, notZero := false, false, false, false
-				for _, g := range conds {
-					x, op, y, ok := CmpGuard(g)
-					if !ok {
-						continue
-					}
-					k, isc := ConstInt(y)
-					switch {
-					case op == token.LSS && isC(x) && y == s:
-						hasLess = true
-					case op == token.GEQ && isC(x) && y == s:
-						notLess = true
-					case op == token.EQL && x == s && isc && k == 0:
-						hasZero = true
-					case op == token.NEQ && x == s && isc && k == 0:
-						notZero = true
+			set := sets[0]
+			argOK := isC(set.Call().Common().Args[1])
+			if ph, ok := set.Call().Common().Args[1].(*ssa.Phi); ok {
+				argOK = false
+				for _, e := range ph.Edges {
+					if isC(e) {
+						argOK = true
 					}
 				}
-				passedSet = hasLess || hasZero
-				if !passedSet && !(notLess && notZero) {
-					okSkip = false
+			}
+			condOK := AllDisjuncts(GuardDNF(set.Block, 3), func(g Guard) bool {
+				x, op, y, ok := CmpGuard(g)
+				if !ok {
+					return false
 				}
+				if (op == token.LSS && isC(x) && y == s) || (op == token.GTR && x == s && isC(y)) {
+					return true
+				}
+				k, isc := ConstInt(y)
+				return op == token.EQL && x == s && isc && k == 0
 			})
-			r.ObSite("R07c", *commit, "server-expiry-kept-only-when-earlier", okSkip, "the server's expiry is kept only when it is non-zero and not later than the client's")
+			r.ObSite("R07c", set, "client-expiry-wins-iff-server-zero-or-later", argOK && condOK, "the value's expiry is overwritten with the client's expiry exactly under (client < server) or (server == 0)")
+			// the complementary arm: reaching the commit without the override requires server != 0 and client >= server
+			var commit *Site
+			for _, b := range fn.Blocks {
+				for i, in := range b.Instrs {
+					if _, isret := in.(*ssa.Return); isret && helper != nil && b.Comment != "recover" {
+						s2 := Site{fn, b, i, in}
+						commit = &s2 // the helper hands the decided expiry back
+					}
+					if st, ok := in.(*ssa.Store); ok && IsFieldAddr(st.Addr, "rueidis.cacheEntry", "val") {
+						s2 := Site{fn, b, i, in}
+						commit = &s2
+					}
+					if cl, ok := in.(*ssa.Call); ok && CalleeName(cl) == "iface:rueidis.SimpleCache.Set" {
+						s2 := Site{fn, b, i, in}
+						commit = &s2
+					}
+				}
+			}
+			if r.Anchor("R07c", name+": commit of the value", commit != nil) {
+				okSkip := true
+				start := SiteOf(s.(ssa.Instruction))
+				PathEnum(start, func(x Site) bool { return x.Instr == commit.Instr }, nil, 5000, func(conds []Guard, at Site) {
+					passedSet := false
+					// did the path go through the override block?
+					for _, g := range conds {
+						_ = g
+					}
+					hasLess, hasZero, notLess, notZero := false, false, false, false
+					for _, g := range conds {
+						x, op, y, ok := CmpGuard(g)
+						if !ok {
+							continue
+						}
+						k, isc := ConstInt(y)
+						switch {
+						case op == token.LSS && isC(x) && y == s:
+							hasLess = true
+						case op == token.GEQ && isC(x) && y == s:
+							notLess = true
+						case op == token.EQL && x == s && isc && k == 0:
+							hasZero = true
+						case op == token.NEQ && x == s && isc && k == 0:
+							notZero = true
+						}
+					}
+					passedSet = hasLess || hasZero
+					if !passedSet && !(notLess && notZero) {
+						okSkip = false
+					}
+				})
+				r.ObSite("R07c", *commit, "server-expiry-kept-only-when-earlier", okSkip, "the server's expiry is kept only when it is non-zero and not later than the client's")
+			}
 		}
 		// returned expiry is the stored one
 		okRet := true
@@ -354,7 +391,7 @@ func runC07(r *Report) {
 			if k, isc := ConstInt(v); isc && k == 0 {
 				return true
 			}
-			if v == s || isC(v) {
+			if v == s || isC(v) || (helper != nil && v == ssa.Value(helper)) {
 				return true
 			}
 			if ph, isphi := v.(*ssa.Phi); isphi {
